@@ -50,6 +50,13 @@ theorem step_pos {s s' : St} (hp : Pos s) (h : Step c s s') : Pos s' := by
         · cases h; exact hp
       · cases h; exact taskDone_pos _
     · cases h
+  | queuerAbort i =>
+    simp only [fire] at h
+    split at h
+    · split at h
+      · cases h; intro hs; cases hs
+      · cases h
+    · cases h
   | take m => simp only [fire] at h; split at h <;> first | (cases h; exact hp) | cases h
   | drop m =>
     simp only [fire] at h
@@ -157,7 +164,7 @@ theorem queuer_can_step {s : St} (h1 : Inv c s) (h3 : Inv3 c s) (hs : s.stopped 
         revert hrk hterm hns hf
         cases s.st d <;> simp [TS.rank, TS.terminal, TS.isBuilt]
       rcases hcases with ha | hp | hb
-      · have hl := h3.activeHasQueuer d ha
+      · have hl := h3.activeHasQueuer hs d ha
         cases hq' : s.qs (s.bq d) with
         | none => rw [hq'] at hl; exact absurd hl (by simp)
         | some q' =>
